@@ -334,7 +334,7 @@ class ValidFolder(Contract):
 
 
 class CompareDirectory(Contract):
-    module, qual, props = 'wcmatch', 'WcMatch.compare_directory', ('C14',)
+    module, qual, props = 'wcmatch', 'WcMatch.compare_directory', ('C14', 'C18')
     pure = ('_add_sep',)
 
     def inputs(self):
@@ -350,7 +350,7 @@ class CompareDirectory(Contract):
             d = c.p['directory']
             arg = pyvc.ObjV(z3.If(me.dpn, U('method._add_sep', c.p['self'], d).t, d.t))
             return pyvc.truthy(c.ret) == z3.Not(pyvc.truthy(U('method.match', c.st.fields['folder_exclude_check'], arg)))
-        return [('WcMatch.compare_directory.not_excluded_iff_exclude_matcher_rejects_(path_gets_trailing_separator_under_DIRPATHNAME)', ('C14',), post)]
+        return [('WcMatch.compare_directory.not_excluded_iff_exclude_matcher_rejects_(path_gets_trailing_separator_under_DIRPATHNAME)', ('C14', 'C18'), post)]
 
 
 class CompileWildcard(Contract):
